@@ -794,6 +794,7 @@ type caseRun struct {
 	cnt      map[string]int
 	root     string
 	futPC    map[string]map[int]bool // (h,r,id) -> senders of non-nil precommits delivered while the height was in the future
+	withheld map[int]bool            // script inputs the peers withheld (sync guard); they stay withheld after a restart
 	dropped  int
 	tmp      []string
 	// expectAt[i] = what the log must hold when incarnation i+1 opens it
@@ -810,7 +811,7 @@ func newCaseRun(cfg *config) (*caseRun, error) {
 		return nil, err
 	}
 	return &caseRun{cfg: cfg, ownProp: map[hr]H{}, resolved: map[int]input{}, cnt: map[string]int{},
-		root: root, futPC: map[string]map[int]bool{}, tmp: []string{root}}, nil
+		root: root, futPC: map[string]map[int]bool{}, withheld: map[int]bool{}, tmp: []string{root}}, nil
 }
 
 func (c *caseRun) cleanup() {
@@ -1097,6 +1098,11 @@ func (c *caseRun) concrete(inc *incarnation, ii idxInput) (any, bool) {
 	case kPrevote:
 		return &starknet.Prevote{MessageHeader: hdr, ID: id}, false
 	default:
+		// a message the peers withheld stays withheld: re-delivery after a restart must not hand
+		// the recovered node an input the never-crashed twin was never given
+		if c.withheld[ii.Idx] {
+			return nil, true
+		}
 		nodeH := inc.startHeight + types.Height(inc.commitsSeen)
 		if id != nil && in.H > nodeH {
 			key := fmt.Sprintf("%d/%d/%s", in.H, in.R, hs(id))
@@ -1107,6 +1113,7 @@ func (c *caseRun) concrete(inc *incarnation, ii idxInput) (any, bool) {
 			}
 			if !set[in.From] && len(set) >= 2 {
 				c.dropped++
+				c.withheld[ii.Idx] = true
 				return nil, true
 			}
 			set[in.From] = true
